@@ -5,6 +5,15 @@ Part B: curve formulas (translated: Ymq/Gen/Curves.lean; one Lemmas/Curve* modul
 Only property theorems live here.
 -/
 import Ymq.Lemmas.ChainGroup
+import Ymq.Lemmas.CurveAddClosed
+import Ymq.Lemmas.CurveDoubleClosed
+import Ymq.Lemmas.CurveDblextClosed
+import Ymq.Lemmas.CurveAddextClosed
+import Ymq.Lemmas.CurveAddDouble
+import Ymq.Lemmas.CurveDblextDouble
+import Ymq.Lemmas.CurveAddextAdd
+import Ymq.Lemmas.CurveSuyama
+import Ymq.Lemmas.CurveMisc
 
 namespace Ymq.C15
 open Ymq.Chain
@@ -151,5 +160,178 @@ example : GapsOk (mkGaps (fun a b => a + b) (dbl (1 : Int)) 4 (id 1)) (1 : Int) 
   simpa using gapsOk_mkGaps (1 : Int) 4
 
 end Group
+
+/-! ## B. curve formulas
+
+`ecmAdd`, `ecmDouble`, … are the bodies of the Rust functions, translated on every run by
+translate/curves.py (Gen/Curves.lean); `ecmIsValid d tw p` is the code's own `is_valid`
+(`(±x²+y²)z² = z⁴ + d x²y²`, `tw = true` for a = -1), `ecmIsValidext` its `is_validext`
+(`±x²+y² = z² + d t²`), `OnQuadric` is `t z = x y`, `ProjEq` the three cross products of
+`projective_equal`. All statements hold over every commutative ring (so over Z/n for composite n). -/
+
+section Curves
+open Ymq.Gen.Curves Ymq.Curve
+variable {R : Type} [CommRing R]
+
+/-- `Curve::add` maps curve points to curve points (a = +1 and a = -1). -/
+theorem add_closed (d : R) (tw : Bool) (p q : Pt R) (hp : ecmIsValid d tw p) (hq : ecmIsValid d tw q) :
+    ecmIsValid d tw (ecmAdd d tw p q) := by
+  obtain ⟨X1, Y1, Z1⟩ := p; obtain ⟨X2, Y2, Z2⟩ := q
+  cases tw
+  · exact add_closed_a1 d X1 Y1 Z1 X2 Y2 Z2 hp hq
+  · exact add_closed_tw d X1 Y1 Z1 X2 Y2 Z2 hp hq
+
+/-- `Curve::double` maps curve points to curve points. -/
+theorem double_closed (d : R) (tw : Bool) (p : Pt R) (hp : ecmIsValid d tw p) :
+    ecmIsValid d tw (ecmDouble d tw p) := by
+  obtain ⟨X1, Y1, Z1⟩ := p
+  cases tw
+  · exact double_closed_a1 d X1 Y1 Z1 hp
+  · exact double_closed_tw d X1 Y1 Z1 hp
+
+/-- `Curve::dblext`: the result satisfies the extended curve equation and lies on the quadric. -/
+theorem dblext_closed (d : R) (tw : Bool) (p : Pt R) (hp : ecmIsValid d tw p) :
+    ecmIsValidext d tw (ecmDblext d tw p) ∧ OnQuadric (ecmDblext d tw p) := by
+  obtain ⟨X1, Y1, Z1⟩ := p
+  cases tw
+  · exact dblext_closed_a1 d X1 Y1 Z1 hp
+  · exact dblext_closed_tw d X1 Y1 Z1 hp
+
+/-- `Curve::to_extended` -/
+theorem to_extended_closed (d : R) (tw : Bool) (p : Pt R) (hp : ecmIsValid d tw p) :
+    ecmIsValidext d tw (ecmToExtended d tw p) ∧ OnQuadric (ecmToExtended d tw p) := by
+  obtain ⟨X1, Y1, Z1⟩ := p
+  cases tw
+  · exact to_extended_closed_a1 d X1 Y1 Z1 hp
+  · exact to_extended_closed_tw d X1 Y1 Z1 hp
+
+/-- `Curve::addext` (extended coordinates): curve equation and `T Z = X Y` are preserved. -/
+theorem addext_closed (d : R) (tw : Bool) (p q : Ext R) (hp : ecmIsValidext d tw p) (hpq : OnQuadric p)
+    (hq : ecmIsValidext d tw q) (hqq : OnQuadric q) :
+    ecmIsValidext d tw (ecmAddext d tw p q) ∧ OnQuadric (ecmAddext d tw p q) := by
+  obtain ⟨X1, Y1, Z1, T1⟩ := p; obtain ⟨X2, Y2, Z2, T2⟩ := q
+  cases tw
+  · exact addext_closed_a1 d X1 Y1 Z1 T1 X2 Y2 Z2 T2 hp hpq hq hqq
+  · exact addext_closed_tw d X1 Y1 Z1 T1 X2 Y2 Z2 T2 hp hpq hq hqq
+
+/-- `Curve::addextproj`: the projective result is on the curve. -/
+theorem addextproj_closed (d : R) (tw : Bool) (p q : Ext R) (hp : ecmIsValidext d tw p) (hpq : OnQuadric p)
+    (hq : ecmIsValidext d tw q) (hqq : OnQuadric q) : ecmIsValid d tw (ecmAddextproj d tw p q) := by
+  rw [addextproj_eq]
+  obtain ⟨h1, h2⟩ := addext_closed d tw p q hp hpq hq hqq
+  exact toProj_valid d tw _ h1 h2
+
+/-- `Curve::subextproj P Q = addextproj P (-Q)` with `-(x, y, z, t) = (-x, y, z, -t)` (syntactic). -/
+theorem subextproj_neg (d : R) (tw : Bool) (p q : Ext R) :
+    ecmSubextproj d tw p q = ecmAddextproj d tw p (negExt q) := subextproj_eq d tw p q
+
+/-- `Curve::subextproj`: the result is on the curve. -/
+theorem subextproj_closed (d : R) (tw : Bool) (p q : Ext R) (hp : ecmIsValidext d tw p) (hpq : OnQuadric p)
+    (hq : ecmIsValidext d tw q) (hqq : OnQuadric q) : ecmIsValid d tw (ecmSubextproj d tw p q) := by
+  rw [subextproj_eq]
+  obtain ⟨h1, h2⟩ := negExt_valid d tw q hq hqq
+  exact addextproj_closed d tw p _ hp hpq h1 h2
+
+/-- `add P P ~ double P` -/
+theorem add_self_double (d : R) (tw : Bool) (p : Pt R) (hp : ecmIsValid d tw p) :
+    ProjEq (ecmAdd d tw p p) (ecmDouble d tw p) := by
+  obtain ⟨X1, Y1, Z1⟩ := p
+  cases tw
+  · exact add_self_double_a1 d X1 Y1 Z1 hp
+  · exact add_self_double_tw d X1 Y1 Z1 hp
+
+/-- `dblext ~ double` -/
+theorem dblext_double (d : R) (tw : Bool) (p : Pt R) (hp : ecmIsValid d tw p) :
+    ProjEq (ecmDblext d tw p).toProj (ecmDouble d tw p) := by
+  obtain ⟨X1, Y1, Z1⟩ := p
+  cases tw
+  · exact dblext_double_a1 d X1 Y1 Z1 hp
+  · exact dblext_double_tw d X1 Y1 Z1 hp
+
+/-- `addext ~ add` (on the projections) -/
+theorem addext_add (d : R) (tw : Bool) (p q : Ext R) (hp : ecmIsValidext d tw p) (hpq : OnQuadric p)
+    (hq : ecmIsValidext d tw q) (hqq : OnQuadric q) :
+    ProjEq (ecmAddext d tw p q).toProj (ecmAdd d tw p.toProj q.toProj) := by
+  obtain ⟨X1, Y1, Z1, T1⟩ := p; obtain ⟨X2, Y2, Z2, T2⟩ := q
+  cases tw
+  · exact addext_add_a1 d X1 Y1 Z1 T1 X2 Y2 Z2 T2 hp hpq hq hqq
+  · exact addext_add_tw d X1 Y1 Z1 T1 X2 Y2 Z2 T2 hp hpq hq hqq
+
+/-- the 128-bit formulas are the a = -1 formulas of ecm.rs, and `dbladd = add ∘ dblext` without `t` -/
+theorem e128_eq_ecm (g : Pt R) (d : R) (p : Pt R) (pe qe : Ext R) :
+    e128Add g pe qe = ecmAddext d true pe qe ∧ e128Dblext g p = ecmDblext d true p ∧
+    e128Double g p = ecmDouble d true p ∧ e128Ext g p = ecmToExtended d true p ∧
+    e128Dbladd g p qe = (ecmAddext d true (ecmDblext d true p) qe).toProj := by
+  refine ⟨e128_add_eq g d pe qe, e128_dblext_eq g d p, e128_double_eq g d p, e128_ext_eq g d p, ?_⟩
+  rw [e128_dbladd_eq, e128_add_eq g d, e128_dblext_eq g d]
+
+/-- `ecm128::Curve::dbladd` maps curve points to curve points and `dbladd P Q ~ add (double P) Q` -/
+theorem e128_dbladd_spec (g : Pt R) (d : R) (p : Pt R) (q : Ext R) (hp : ecmIsValid d true p)
+    (hq : ecmIsValidext d true q) (hqq : OnQuadric q) :
+    ecmIsValid d true (e128Dbladd g p q) ∧
+      ProjEq (e128Dbladd g p q) (ecmAdd d true (ecmDblext d true p).toProj q.toProj) := by
+  obtain ⟨h1, h2⟩ := dblext_closed d true p hp
+  rw [(e128_eq_ecm g d p q q).2.2.2.2]
+  exact ⟨by rw [← addextproj_eq]; exact addextproj_closed d true _ q h1 h2 hq hqq,
+    addext_add d true _ q h1 h2 hq hqq⟩
+
+/-- `ecm128::Curve::is_valid` accepts every point of the generator's curve -/
+theorem e128_is_valid_of_curve (g : Pt R) (d : R) (p : Ext R) (hg : ecmIsValid d true g)
+    (hp : ecmIsValidext d true p) : e128IsValid g p := by
+  refine e128_is_valid_of g d p ?_ hp
+  rw [e128_ext_eq g d]
+  exact (to_extended_closed d true g hg).1
+
+/-- Suyama-11 parameter curve `y² z = x³ + a x z² + b z³`: `Suyama11::double` is closed -/
+theorem suyama_double_on_curve (a b gx gy : R) (p : Pt R) (hp : suyamaIsValid a b gx gy p) :
+    suyamaIsValid a b gx gy (suyamaDouble a b gx gy p) := by
+  obtain ⟨X1, Y1, Z1⟩ := p
+  exact suyama_double_closed a b gx gy X1 Y1 Z1 hp
+
+/-- `Suyama11::add_g` (mixed addition of the generator) is closed -/
+theorem suyama_add_g_on_curve (a b gx gy : R) (p : Pt R) (hp : suyamaIsValid a b gx gy p)
+    (hg : suyamaIsValid a b gx gy ⟨gx, gy, 1⟩) : suyamaIsValid a b gx gy (suyamaAddG a b gx gy p) := by
+  obtain ⟨X1, Y1, Z1⟩ := p
+  exact suyama_add_g_closed a b gx gy X1 Y1 Z1 hp hg
+
+/-- the generator (12 - 1/3, 24) built by `Suyama11::new` is on its curve (`3 · one_third = 1` is
+the code's own debug assertion) -/
+theorem suyama_generator_on_curve (t : R) (h3 : ((3 : Nat) : R) * t = 1) :
+    suyamaIsValid (suyamaConsts t).1 (suyamaConsts t).2.1 (suyamaConsts t).2.2.1 (suyamaConsts t).2.2.2
+      ⟨(suyamaConsts t).2.2.1, (suyamaConsts t).2.2.2, 1⟩ := suyama_generator_valid t h3
+
+/-- `params_point` followed by `twisted_from_point` (as `ecm()` composes them): the generator lies on
+the a = -1 curve with the returned `d`, whenever the inverse taken by `twisted_from_point` exists. -/
+theorem params_point_on_curve (inv : R → R) (a b gx gy : R) (pt : Pt R) :
+    let g := suyamaParamsPoint inv a b gx gy pt
+    (g.x * g.x * (g.y * g.y)) * inv (g.x * g.x * (g.y * g.y)) = 1 →
+    ecmIsValid (ecmTwistedFromPoint inv 0 true g) true g := by
+  intro g h
+  exact twisted_from_point_valid inv 0 true g h
+
+/-- `Curve::from_point(x, y)`: `(x, y, 1)` lies on the a = +1 curve with the returned `d`. -/
+theorem from_point_on_curve (inv : R → R) (x y : R) (h1 : (1 : R) * inv 1 = 1)
+    (hxy : (x * y) * inv (x * y) = 1) :
+    ecmIsValid (ecmFromPoint inv x y).1 false (ecmFromPoint inv x y).2 := from_point_valid inv x y h1 hxy
+
+end Curves
+
+/-! non-vacuity: the hypotheses are satisfiable by non-trivial points (over ℤ) -/
+section NonVacuity
+open Ymq.Gen.Curves Ymq.Curve
+
+example : ecmIsValid (1 : Int) false ⟨1, 2, 1⟩ := by
+  simp [ecmIsValid, ecmIsValidSides]
+example : ecmIsValid (-1 : Int) true ⟨1, 2, 2⟩ := by
+  simp [ecmIsValid, ecmIsValidSides]
+example : ecmIsValidext (-1 : Int) true (ecmToExtended (-1) true ⟨1, 2, 2⟩) ∧
+    OnQuadric (ecmToExtended (-1 : Int) true ⟨1, 2, 2⟩) :=
+  to_extended_closed (-1) true ⟨1, 2, 2⟩ (by simp [ecmIsValid, ecmIsValidSides])
+example : suyamaIsValid (-3 : Int) 3 1 1 ⟨1, 1, 1⟩ := by
+  simp [suyamaIsValid, suyamaIsValidSides]
+example : ∃ (inv : Int → Int) (x y : Int), (1 : Int) * inv 1 = 1 ∧ (x * y) * inv (x * y) = 1 :=
+  ⟨fun _ => 1, 1, 1, by simp, by simp⟩
+
+end NonVacuity
 
 end Ymq.C15
